@@ -1,8 +1,129 @@
+/-
+  C19 line-protocol ops.
+
+    c19.amountIn  method text          -> satoshis | err:<family>       (Model.Rpc.amountIn; bad-args if not a number)
+    c19.amountOut method satoshis      -> satoshis                      (Spec: the emitted text must denote exactly this)
+    c19.lx        str                  -> hex | err:py:Error
+    c19.b2lx      hex                  -> str
+    c19.chain     kind serverstr       -> hex(lx s) '|' b2lx(lx s)      (hash returned by one call, passed to the next)
+    c19.tx        txfmt                -> hex(ser tx) '|' show(deserialize(unhex(hex)))      likewise c19.header, c19.block
+    c19.unhex     str                  -> hex | err:py:Error            (unhexlify_str, x)
+    c19.hex       hex                  -> str                           (hexlify_str, b2x)
+    c19.reply     method replyspec     -> result:<v> | raise:<Class>:<code> | err:py:IndexError
+    c19.ids       tokens               -> ids sent, ','-joined ('b' for a batch request)
+
+    replyspec := none | nonjson=<i> | obj:<err>:<res>
+    err       := absent | null | other=<i> | dict=<code>
+    code      := absent | empty | int=<n> | dec=<number text> | true | false | null | str
+    res       := absent | v=<text>
+-/
 import Driver.Util
+import Driver.TxFmt
+import BtcVerif.Model.Rpc
+import BtcVerif.Model.Wire
 
 namespace Driver.C19
 open BtcVerif Driver
+open BtcVerif.Model.Rpc
 
-def handle (_op : String) (_args : List String) : Option String := none
+def parseCode? (s : String) : Option CodeVal :=
+  if s = "absent" ∨ s = "empty" then some .absent          -- "empty": the error object is `{}`
+  else if s = "true" then some (.bool true)
+  else if s = "false" then some (.bool false)
+  else if s = "null" then some .null
+  else if s = "str" then some .str
+  else if s.startsWith "int=" then (parseInt? (s.drop 4).toString).map .int
+  else if s.startsWith "dec=" then
+    (scanNumber (s.drop 4).toString.toList).map (fun t => .dec t.neg t.coeff t.expo)
+  else none
+
+def parseErr? (s : String) : Option ErrVal :=
+  if s = "absent" then some .absent
+  else if s = "null" then some .null
+  else if s.startsWith "other=" then some .other
+  else if s.startsWith "dict=" then (parseCode? (s.drop 5).toString).map .dict
+  else none
+
+def parseRes? (s : String) : Option (Option String) :=
+  if s = "absent" then some none
+  else if s.startsWith "v=" then some (some (s.drop 2).toString)
+  else none
+
+def parseReply? (s : String) : Option Reply :=
+  if s = "none" then some .noResponse
+  else if s.startsWith "nonjson=" then some .nonJson
+  else match s.splitOn ":" with
+    | ["obj", e, r] => do
+        let e ← parseErr? e
+        let r ← parseRes? r
+        pure (.obj e r)
+    | _ => none
+
+def showOutcome : Outcome → String
+  | .result v => "result:" ++ v
+  | .raise cls code => "raise:" ++ cls ++ ":" ++ code
+  | .pyExc cls => "err:py:" ++ cls
+
+def parseReq? (s : String) : Option Req :=
+  if s = "batch" then some .batch
+  else if s = "ok" ∨ s = "err" ∨ s = "bad" ∨ s = "none" ∨ s = "miss" then some .call
+  else none
+
+/-- `X.deserialize(unhexlify_str(hexlify_str(obj.serialize())))` -/
+def transport {α} (ser : α → Res Bytes) (de : Model.Wire.Parser α) (show_ : α → String) (obj : α) : String :=
+  match ser obj with
+  | .error e => "err:" ++ e.family
+  | .ok b =>
+    let h := hexlify b
+    match unhexlify h with
+    | .error e => h ++ "|err:" ++ e.family
+    | .ok b' =>
+      match Model.Wire.deserialize de b' with
+      | .ok o => h ++ "|" ++ show_ o
+      | .extra _ _ => h ++ "|err:extra"
+      | .err e => h ++ "|err:" ++ e.family
+
+def handle (op : String) (args : List String) : Option String :=
+  match op, args with
+  | "c19.amountIn", [_, text] => some <| match amountIn text.toList with
+      | some r => Res.render (r.map toString)
+      | none => badArgs
+  | "c19.amountOut", [_, amt] => some <| match parseNat? amt with
+      | some a => toString a
+      | none => badArgs
+  | "c19.lx", [s] => some <| Res.render ((lx s).map toHex)
+  | "c19.unhex", [s] => some <| Res.render ((unhexlify s).map toHex)
+  | "c19.hex", [h] => some <| match parseHex? h with
+      | some b => hexlify b
+      | none => badArgs
+  | "c19.b2lx", [h] => some <| match parseHex? h with
+      | some b => b2lx b
+      | none => badArgs
+  | "c19.chain", [_, s] => some <| match lx s with
+      | .ok b => toHex b ++ "|" ++ b2lx b
+      | .error e => "err:" ++ e.family
+  | "c19.tx", [t] => some <| match TxFmt.parseTx? t with
+      | some t => transport (fun t => Model.Wire.serTx t) Model.Wire.deTx TxFmt.showTx t
+      | none => badArgs
+  | "c19.header", [h] => some <| match TxFmt.parseHeader? h with
+      | some h => transport Model.Wire.serHeader Model.Wire.deHeader TxFmt.showHeader h
+      | none => badArgs
+  | "c19.block", [b] => some <| match TxFmt.parseBlock? b with
+      | some b => transport (fun b => Model.Wire.serBlock b) Model.Wire.deBlock TxFmt.showBlock b
+      | none => badArgs
+  | "c19.reply", [m, r] => some <| match parseReply? r with
+      | some r => showOutcome (methodOutcome m r)
+      | none => badArgs
+  | "c19.ids", [toks] => some <| match (splitList toks ',').mapM parseReq? with
+      | some reqs =>
+          -- re-run the state machine to interleave the batch markers
+          let rec go (s : PState) : List Req → List String
+            | [] => []
+            | r :: rs =>
+                let (s', i) := stepReq s r
+                (match i with | some n => toString n | none => "b") :: go s' rs
+          joinWith "," (go PState.init reqs)
+      | none => badArgs
+  | _, _ => none
 
 end Driver.C19
